@@ -1,6 +1,9 @@
 package procbuilder
 
-import "strconv"
+import (
+	"strconv"
+	"strings"
+)
 
 // C16(a): field-width arithmetic is adequate and minimal for every count.
 
@@ -88,5 +91,64 @@ func zzDispatch(name string, args []string) {
 		zzC16IOBits()
 	case "zzC16MaxWord":
 		zzC16MaxWord(args[0])
+	case "zzC16Emitted":
+		a := func(i int) int { v, _ := strconv.Atoi(args[i]); return v }
+		zzC16Emitted(a(0), a(1), a(2), a(3), a(4), a(5), a(6), args[7], args[8])
 	}
+}
+
+// C16(b): one simulator step of an emitted processor from ANY pc inside its ROM
+// and ANY register/input/flag state never indexes outside the ROM, the register
+// file, the ports or the opcode list, and never leaves pc beyond the end of the
+// ROM. The machine description comes from the real front-end (run natively).
+func zzC16Emitted(rsize, r, n, mm, l, o, wordsize int, ops string, rom string) {
+	m := zzMachine(rsize, r, n, mm, l, o, ops)
+	m.WordSize = uint8(wordsize)
+	// the front-end's opcode order must be the sorted, duplicate-free one the simulator and the HDL assume
+	names := strings.Split(ops, ",")
+	sortedOK := len(names) == len(m.Op)
+	for i := range m.Op {
+		if i < len(names) && m.Op[i].Op_get_name() != names[i] {
+			sortedOK = false
+		}
+		if i > 0 && m.Op[i].Op_get_name() <= m.Op[i-1].Op_get_name() {
+			sortedOK = false
+		}
+	}
+	zzAssert("opcode-list-sorted-and-duplicate-free", sortedOK)
+	m.Program.Slocs = strings.Split(rom, ",")
+	W := m.Max_word()
+	zzAssert("rom-fits-address-space", len(m.Program.Slocs) <= 1<<uint(o))
+	for _, w := range m.Program.Slocs {
+		zzAssert("rom-word-has-architecture-width", len(w) == W)
+		id, _ := m.Conproc.Decode_opcode(w)
+		zzAssert("rom-word-decodes-to-an-opcode-of-the-processor", id < len(m.Op))
+	}
+	vm := new(VM)
+	vm.Mach = m
+	err := vm.Init()
+	zzAssert("vm-init", err == nil)
+	pc := zzNondetU64("pc")
+	zzAssume(pc < uint64(len(m.Program.Slocs)))
+	vm.Pc = pc
+	for i := range vm.Registers {
+		vm.Registers[i] = zzWord("reg", rsize)
+	}
+	for i := range vm.Memory {
+		vm.Memory[i] = zzWord("mem", rsize)
+	}
+	for i := range vm.Inputs {
+		vm.Inputs[i] = zzWord("in", rsize)
+		vm.InputsValid[i] = zzNondetBool("invalid")
+		vm.InputsRecv[i] = zzNondetBool("inrecv")
+	}
+	for i := range vm.Outputs {
+		vm.Outputs[i] = zzWord("out", rsize)
+		vm.OutputsValid[i] = zzNondetBool("outvalid")
+		vm.OutputsRecv[i] = zzNondetBool("outrecv")
+	}
+	_, serr := vm.Step(nil)
+	zzAssert("step-no-error", serr == nil)
+	zzAssert("pc-stays-within-rom", vm.Pc <= uint64(len(m.Program.Slocs)))
+	zzReach("end")
 }
